@@ -357,7 +357,7 @@ func (c *c01Gen) call(depth int) string {
 // stmt generates an assignment-like statement followed by the expression that reports the locals.
 func (c *c01Gen) stmt(depth int) (string, string) {
 	g := c.g
-	switch g.Weighted(2, 2, 2, 2, 2, 2, 2, 2, 2) {
+	switch g.Weighted(2, 2, 2, 2, 2, 2, 2, 2, 2, 2) {
 	case 0:
 		c.use("multitarget")
 		return "a = b = " + c.expr(tInt, depth), "(a, b)"
@@ -404,10 +404,28 @@ func (c *c01Gen) stmt(depth int) (string, string) {
 		c.use("multitarget")
 		// several targets, each with sub-expressions: RHS first, then targets left to right
 		return fmt.Sprintf("vx(%d)[%s] = vo(%d).a = a = %s", c.k(), c.expr(tInt, depth-1), c.k(), c.expr(tInt, depth-1)), "a"
-	default:
+	case 8:
 		c.use("aug-name")
 		op := g.Str("+=", "-=", "*=", "//=", "|=")
 		return "a = " + c.expr(tInt, depth-1) + "\na " + op + " " + c.expr(tInt, depth-1), "a"
+	default:
+		// operands of different numeric types: the in-place slot of the left operand declines and the
+		// reflected operation of the right operand decides (values chosen so that every result is exact)
+		c.use("aug-mixed-types")
+		op := g.Str("+=", "-=", "*=", "/=", "//=", "%=", "**=")
+		lhs := g.Str("4", "9", "7", "16", "2.5") // no bool on the left: bool op bool is the open C07 finding bool-arithmetic
+		rhs := g.Str("0.5", "2.0", "True", "2", "4.0")
+		target := "a"
+		pre := fmt.Sprintf("a = v(%d, %s)\n", c.k(), lhs)
+		if g.Bool() {
+			target = fmt.Sprintf("vx(%d)[0]", c.k())
+			pre = fmt.Sprintf("x[0] = v(%d, %s)\n", c.k(), lhs)
+		}
+		ret := "a"
+		if target != "a" {
+			ret = "x[0]"
+		}
+		return pre + target + " " + op + fmt.Sprintf(" v(%d, %s)", c.k(), rhs), ret
 	}
 }
 
